@@ -117,11 +117,10 @@ func (cd *CandleDuration) IsWithin(ts, start time.Time) bool {
 		yy1, mm1, dd1 := start.In(ts.Location()).Date()
 		return yy0 == yy1 && mm0 == mm1 && dd0 == dd1
 	case "W":
-		tsY, tsW := ts.ISOWeek()
-		sY, sW := start.ISOWeek()
-		if tsY == sY && tsW == sW {
-			return true
-		}
+		// membership must agree with Truncate, which cuts weekly windows with time.Truncate (Monday
+		// 00:00 UTC, every cd.duration); comparing ISO weeks in the timestamp's zone rejected rows of the
+		// window in every zone that is not at UTC+0 and in the second week of multi-week windows
+		return ts.Truncate(cd.duration).Equal(start)
 	case "M":
 		switch {
 		case ts.Year() == start.Year():
@@ -168,8 +167,10 @@ func (cd *CandleDuration) Truncate(ts time.Time) time.Time {
 // ts belongs to.
 func (cd *CandleDuration) Ceil(ts time.Time) time.Time {
 	if cd.suffix == "D" {
-		yy, mm, dd := ts.Add(Day).Date()
-		return time.Date(yy, mm, dd, 0, 0, 0, 0, ts.Location())
+		// the day after ts's calendar day; ts + 24h is not always on that day (23h / 25h days at
+		// daylight-saving transitions)
+		yy, mm, dd := ts.Date()
+		return time.Date(yy, mm, dd+1, 0, 0, 0, 0, ts.Location())
 	}
 	if cd.suffix == "M" {
 		year := ts.Year()
